@@ -65,7 +65,12 @@ func (e *Engine) verifyFunc(fn *ssa.Function, fc *FuncContract) *FuncReport {
 		s := e.newState(dec, name)
 		s.unfoldCRC = fc.Options["unfold-crcfold"]
 		s.ghostlog = map[string]bool{}
+		s.ghostlogContract = map[string]bool{}
 		for _, g := range fc.GhostLog {
+			if strings.HasSuffix(g, "+contract") {
+				g = strings.TrimSuffix(g, "+contract")
+				s.ghostlogContract[g] = true
+			}
 			s.ghostlog[g] = true
 		}
 		func() {
